@@ -707,6 +707,31 @@ Outcome run_c07(const Case &c, bool thorough) {
       if (g_page->max_inside[1] > 1) { co.fail("lock-exclusion", std::to_string(g_page->max_inside[1].load()) + " processes were inside p_shm_lock/p_shm_unlock of one segment at the same time"); break; }
       if (f1 - b0 != rounds * (long)parts.size()) { co.fail("lock-exclusion", "non-atomic counter under p_shm_lock ended at +" + std::to_string(f1 - b0) + " instead of +" + std::to_string(rounds * (long)parts.size()) + " (lost updates)"); break; }
       co.classes.insert("lock_phase"); cross_read = true;
+    } else if (s.cmd == "huge") {
+      // a segment beyond 4 GiB (sparse on tmpfs, a handful of pages are touched): "p_shm_get_size reports the segment size ... every byte
+      // below it is accessible ... a byte stored through one handle is read back through every other handle" - at offsets on both
+      // sides of 2^32 and at the very end.  A worker that dies touching such a byte is the verdict.
+      size_t H = ((size_t)1 << 32) + 8192 + 123;
+      string name = co.uniq + "huge"; co.names_used.insert(name);
+      int w2 = (w + 1) % P; if (co.ws[(size_t)w2].dead) co.respawn(w2);
+      string a = co.call(w, "shm_new 8 " + name + " " + std::to_string(H) + " 0");
+      if (a.rfind("ok", 0) != 0) { co.out.inconclusive = true; vl::stats().count("huge_segment_not_created"); continue; }
+      string b = co.call(w2, "shm_new 8 " + name + " " + std::to_string(H) + " 0");
+      auto reports = [&](const string &r) { string want = "ok " + std::to_string(H); return r.rfind(want, 0) == 0 && (r.size() == want.size() || r[want.size()] == ' '); };
+      if (!reports(a) || !reports(b)) co.fail("size", "a segment created with " + std::to_string(H) + " bytes: creator reports '" + a + "', second handle '" + b + "'");
+      static const size_t offs[] = {0, 4095, 4096, ((size_t)1 << 32) - 7, ((size_t)1 << 32), ((size_t)1 << 32) + 4096, 0 /* H - 7 */};
+      for (int i = 0; i < 7 && !co.bad(); i++) {
+        size_t off = i == 6 ? H - 7 : offs[i];
+        string st = co.call(w2, "shm_store 8 " + std::to_string(off) + " 7 " + std::to_string(100 + i));
+        if (st == "DEAD") { co.fail("huge-inaccessible", "a process died storing 7 bytes at offset " + std::to_string(off) + " of a segment whose p_shm_get_size is " + std::to_string(H) + ": bytes below the reported size are not mapped"); break; }
+        string ld = co.call(w, "shm_load 8 " + std::to_string(off) + " 7");
+        if (ld == "DEAD") { co.fail("huge-inaccessible", "a process died loading 7 bytes at offset " + std::to_string(off) + " of a segment whose p_shm_get_size is " + std::to_string(H) + ": bytes below the reported size are not mapped"); break; }
+        if (ld.rfind("data " + vl::hex(pattern_bytes(7, (unsigned)(100 + i))), 0) != 0) { co.fail("same-bytes", "bytes stored through one handle at offset " + std::to_string(off) + " of a " + std::to_string(H) + "-byte segment are not what another handle reads there"); break; }
+      }
+      co.classes.insert("segment_beyond_4GiB");
+      if (!co.ws[(size_t)w2].dead) co.call(w2, "shm_free 8");
+      if (!co.ws[(size_t)w].dead) { co.call(w, "shm_own 8"); co.call(w, "shm_free 8"); }
+      cross_read = true;
     } else if (s.cmd == "race") {
       // first-use race: worker w creates an absent name and is paused at point `pause`; another worker does a whole p_shm_new in the gap
       long nidx = s.args.size() > 1 ? s.args[1] : 0; size_t size = sizes[(s.args.size() > 2 ? s.args[2] : 0) % 8];
@@ -971,6 +996,7 @@ void enumerate(const string &prop, long shard, long nshards) {
         Step s; s.worker = 0; s.cmd = "race"; s.args = {0, 0, szi, 0}; s.pause = k; c.steps.push_back(s);
         exec("raceenum", c, false);
       }
+    if ((idx++ % nshards) == shard) { Case c; c.prop = "C07"; Step s; s.worker = 0; s.cmd = "huge"; s.args = {0}; c.steps.push_back(s); exec("hugeenum", c, false); }
     vl::stats().exhaustive["C07_every_kill_point_of_p_shm_new_and_every_pause_point_of_the_first_use_race"] = true;
   } else if (prop == "C08") {
     // concurrent producers (2 processes) and one consumer on every capacity class that can hold a frame; repeated
